@@ -43,6 +43,7 @@ def main():
     bezier = C.import_bezier()
     from bezier import _curve_helpers as CH
     from bezier import _intersection_helpers as IH
+    from bezier.hazmat import intersection_helpers as IHZ
     from bezier import _triangle_helpers as TH
     from bezier import _triangle_intersection as TI
     rnd, seed = C.rng()
@@ -99,6 +100,18 @@ def main():
                     ai = G.int_net(rnd, 2, n1 + 1, 8)
                     bi = G.int_net(rnd, 2, n2 + 1, 8)
                     add("newton-intersect", nodes=ai, nodes2=bi, s=rnd.choice(GRID[:6]), t=rnd.choice(GRID[:6]))
+        # the double-root system G = (F, B1' x B2') that full_newton_nonzero falls back to on a tangency: its Gauss-Newton
+        # normal equations are observed on the first double-root evaluation of the running library code (mixed degrees,
+        # the second derivative nets are built inside full_newton_nonzero)
+        for n1 in range(1, 6):
+            for n2 in range(1, 6):
+                if n1 == 1 and n2 == 1:
+                    continue
+                ai = G.int_net(rnd, 2, n1 + 1, 8)
+                bi = G.int_net(rnd, 2, n2 + 1, 8)
+                add("newton-double-system", nodes=ai, nodes2=bi, s=rnd.choice(GRID[2:6]), t=rnd.choice(GRID[2:6]))
+                add("newton-double-system", nodes=G.smooth_float_net(rnd, 2, n1 + 1), nodes2=G.smooth_float_net(rnd, 2, n2 + 1),
+                    s=G.float_param(rnd, 0.1, 0.9), t=G.float_param(rnd, 0.1, 0.9))
         # singular Jacobian must raise, exact hit must be a no-op
         add("newton-intersect-singular", nodes=[[Fr(0), Fr(1)], [Fr(0), Fr(1)]], nodes2=[[Fr(0), Fr(2)], [Fr(1), Fr(3)]], s=Fr(1, 2), t=Fr(1, 2))
         add("newton-intersect-noop", nodes=[[Fr(0), Fr(2)], [Fr(0), Fr(2)]], nodes2=[[Fr(0), Fr(2)], [Fr(2), Fr(0)]], s=Fr(1, 2), t=Fr(1, 2))
@@ -240,6 +253,69 @@ def main():
                 if abs(got - model) > tol:
                     res.mismatch("newton_refine(curve)", rc, str(got), str(model), "T regime")
                     res.failure("newton-curve-wrong", "newton_refine (curve) degree %d: %s vs exact Newton step %s" % (n, float(got), float(spec)), rc)
+            elif kind == "newton-double-system":
+                n2 = kw["nodes2"]
+                arr2 = C.farr(n2)
+                s, t = Fr(float(kw["s"])), Fr(float(kw["t"]))
+                rec = []
+
+                class _Stop(Exception):
+                    pass
+                orig_call = IHZ.NewtonDoubleRoot.__call__
+                orig_simple = IHZ.NewtonSimpleRoot.__call__
+
+                def spy(self, s_, t_):
+                    out = orig_call(self, s_, t_)
+                    rec.append((Fr(float(s_)), Fr(float(t_)), out))
+                    raise _Stop()
+
+                def simple_never(self, s_, t_):
+                    # make the simple-root stage give up at once (a singular system), so that the double-root stage starts
+                    # from the given parameters
+                    return np.zeros((2, 2), order="F"), np.ones((2, 1), order="F")
+                IHZ.NewtonDoubleRoot.__call__ = spy
+                IHZ.NewtonSimpleRoot.__call__ = simple_never
+                try:
+                    IHZ.full_newton_nonzero(float(s), arr, float(t), arr2)
+                except _Stop:
+                    pass
+                except Exception as exc:  # noqa
+                    res.failure("newton-double-raised", "full_newton_nonzero raised %s before evaluating the double-root system" % type(exc).__name__, rc)
+                finally:
+                    IHZ.NewtonDoubleRoot.__call__ = orig_call
+                    IHZ.NewtonSimpleRoot.__call__ = orig_simple
+                if not rec:
+                    res.skip("double-root stage not reached")
+                    continue
+                s_, t_, (lhs, rhs) = rec[0]
+                d1x, d1y = X.hodograph_exact(nodes[0], s_), X.hodograph_exact(nodes[1], s_)
+                d2x, d2y = X.hodograph_exact(n2[0], t_), X.hodograph_exact(n2[1], t_)
+                dd1x, dd1y = X.second_deriv_exact(nodes[0], s_), X.second_deriv_exact(nodes[1], s_)
+                dd2x, dd2y = X.second_deriv_exact(n2[0], t_), X.second_deriv_exact(n2[1], t_)
+                g = [X.bern(nodes[0], s_) - X.bern(n2[0], t_), X.bern(nodes[1], s_) - X.bern(n2[1], t_), d1x * d2y - d1y * d2x]
+                jac = [[d1x, -d2x], [d1y, -d2y], [dd1x * d2y - dd1y * d2x, d1x * dd2y - d1y * dd2x]]
+                if lhs is None:
+                    if any(v != 0 for v in g):
+                        res.failure("newton-double-system-wrong", "double-root system reported G = 0 although G = %s" % [float(v) for v in g], rc)
+                    continue
+                want_lhs = [[sum(jac[k][i] * jac[k][j] for k in range(3)) for j in range(2)] for i in range(2)]
+                want_rhs = [sum(jac[k][i] * g[k] for k in range(3)) for i in range(2)]
+                abs_lhs = [[sum(abs(jac[k][i] * jac[k][j]) for k in range(3)) for j in range(2)] for i in range(2)]
+                abs_rhs = [sum(abs(jac[k][i] * g[k]) for k in range(3)) for i in range(2)]
+                size = max(max(abs(float(v)) for r in nodes for v in r), max(abs(float(v)) for r in n2 for v in r), 1.0)
+                deg = max(len(nodes[0]), len(n2[0]))
+                # generous T-regime allowance: cancellation inside the entries of J is covered by the size^4 term
+                tol_rel, tol_abs = 2.0 ** -30, 2.0 ** -36 * (deg ** 4) * size ** 4
+                bad = None
+                for i in range(2):
+                    for j in range(2):
+                        if abs(Fr(float(lhs[i, j])) - want_lhs[i][j]) > tol_rel * abs_lhs[i][j] + tol_abs:
+                            bad = "DG^T DG[%d,%d] = %r, exact %r" % (i, j, float(lhs[i, j]), float(want_lhs[i][j]))
+                    if abs(Fr(float(rhs[i, 0])) - want_rhs[i]) > tol_rel * abs_rhs[i] + tol_abs:
+                        bad = "DG^T G[%d] = %r, exact %r" % (i, float(rhs[i, 0]), float(want_rhs[i]))
+                if bad:
+                    res.failure("newton-double-system-wrong", "double-root Gauss-Newton system of full_newton_nonzero (degrees %d, %d): %s" %
+                                (len(nodes[0]) - 1, len(n2[0]) - 1, bad), rc)
             elif kind.startswith("newton-intersect"):
                 n2 = kw["nodes2"]
                 arr2 = C.farr(n2)
